@@ -23,3 +23,13 @@ WRAP BF* w_bf_init_mem(uint8_t* mem, uint64_t len, uint64_t num_bits, uint16_t n
 WRAP BF* w_bf_wrap(const uint8_t* mem, uint64_t len) { try { return new BF(BF::wrap(mem, len)); } catch (...) { return nullptr; } }
 WRAP BF* w_bf_writable_wrap(uint8_t* mem, uint64_t len) { try { return new BF(BF::writable_wrap(mem, len)); } catch (...) { return nullptr; } }
 WRAP int64_t w_bf_serialize(const BF* f, uint8_t* out, uint64_t cap) { try { auto b = f->serialize(); if (b.size() > cap) return -2; for (size_t i = 0; i < b.size(); i++) out[i] = b[i]; return (int64_t)b.size(); } catch (...) { return -1; } }
+// bit_array_ops kernels alone (unit level): multi-word arrays in harness memory
+WRAP uint8_t w_bao_get(uint8_t* a, uint64_t i) { return bit_array_ops::get_bit(a, i); }
+WRAP void w_bao_set(uint8_t* a, uint64_t i) { bit_array_ops::set_bit(a, i); }
+WRAP void w_bao_clear(uint8_t* a, uint64_t i) { bit_array_ops::clear_bit(a, i); }
+WRAP void w_bao_assign(uint8_t* a, uint64_t i, uint8_t v) { bit_array_ops::assign_bit(a, i, v != 0); }
+WRAP uint8_t w_bao_get_and_set(uint8_t* a, uint64_t i) { return bit_array_ops::get_and_set_bit(a, i); }
+WRAP uint64_t w_bao_count(uint8_t* a, uint64_t len) { return bit_array_ops::count_num_bits_set(a, len); }
+WRAP uint64_t w_bao_union(uint8_t* t, const uint8_t* s, uint64_t len) { return bit_array_ops::union_with(t, s, len); }
+WRAP uint64_t w_bao_intersect(uint8_t* t, const uint8_t* s, uint64_t len) { return bit_array_ops::intersect(t, s, len); }
+WRAP uint64_t w_bao_invert(uint8_t* a, uint64_t len) { return bit_array_ops::invert(a, len); }
